@@ -53,6 +53,10 @@ CHECKS = {
  'C09': dict(level='exploration', ref='3/C09', technique='differential monitor on preprocessor executions: chibicc -E (ASan/UBSan build) vs gcc -E == clang -E, outputs re-lexed by one pp-tokenizer and compared token by token; termination watchdog with re-run protocol',
              text='Random macro definition sets and invocation texts over a small alphabet exercise object-like and function-like macros, recursion shapes, # and ## with all empty/non-empty operand combinations and chains, variadics (__VA_ARGS__, named, __VA_OPT__, `, ##`), nested and multi-line invocations, function-like names without parentheses, #undef/redefinition and __COUNTER__. A case counts only if gcc and clang both accept it and agree; then every token chibicc prints must match.',
              note='constructs C11 leaves unspecified or undefined are not generated (function-like name at the end of a replacement list taking arguments from outside, directives inside arguments); ~25 % of generated cases are discarded because the references reject them (invalid pastes)'),
+
+ 'C19': dict(level='exploration', ref='3/C19', technique='round-trip monitor on compiler executions: -E text re-lexed by an independent pp-tokenizer vs gcc -E == clang -E tokens, E(E(x)) == E(x), and asm(E(x)) == asm(x) modulo line records for the test corpus',
+             text='All ordered pairs of 46 token classes are made adjacent through macro expansion in nine ways (with/without white space, through empty macros, comments, argument substitution) - an exhaustive grid - plus random longer sequences; what -E prints must re-lex to the intended token sequence and be a fixpoint. For every bundled test program and the compiler sources, compiling the -E output must produce the same assembly as compiling the source.',
+             note='pairs rejected by or ambiguous between gcc and clang are discarded; the pp-tokenizer in lib/pptok.py is the trusted lexer'),
 }
 REASON_WIP = 'check not built yet in this session (planned, see DESIGN.md section 3); will be claimed once its monitor is silent on the unchanged tree'
 
